@@ -22,8 +22,11 @@ CONFIG = {
             'records larger than the buffer, magic-laden payloads) with histories up to 14 (30) ops. Controlled scheduler: DFS '
             'with preemption bound 2 (3) over 8 consumer programs incl. bf / reset, plus PCT / uniform random schedules on '
             'random programs; every base-split call contains a scheduling point. Non-trivial = a wrapper was constructed.',
-    'assumptions': ['the base split is a function of the partition: after BeforeFirst / ResetPartition its next pass is the chunk '
-                    'sequence of a freshly constructed split (C05); the model takes that chunk list from the Split model',
+    'assumptions': ['BaseFacts: a pass of the base split over partition (k, n) is one chunk list B k n whatever happened before the '
+                    'rewind; instantiated with the Split model (Wrap/Base.lean: splitPass = NextChunk blobs of a freshly constructed '
+                    'split, the driver runs it) and proved from C05_reset_mkSt as C10_base_pass (C05_beforeFirst + C05_range_stable '
+                    'for BeforeFirst). Not proved, tied by correspondence + chunk/cache-file oracle: NextChunkEx into an iterator '
+                    'cell yields the same bytes as NextChunk through the split\'s own tmp_chunk_',
                     'the ThreadedIter facts (TIterFacts) are discharged from Props.C07 / Props.C08 (Wrap/TIterLink.lean): '
                     'C10_threaded_transparent and C10_race_free hold for every reachable state of DmlcModel.TIter; termination of '
                     'the calls is not claimed (C07 proves deadlock freedom only)',
